@@ -83,8 +83,12 @@ class FnVerifier(Verifier):
                 pats = []
                 for kw in e.keywords:
                     if kw.arg == 'trigger':       # trigger=lambda k: <term>   (E-matching pattern for the quantifier)
-                        tv = self.ev.ev(s, kw.value.body)
-                        pats.append(tv.t)
+                        if isinstance(kw.value.body, ast.Tuple):
+                            # trigger=lambda a, b: (t1, t2): one multi-pattern (all terms must occur)
+                            pats.append(z3.MultiPattern(*[self.ev.ev(s, x).t for x in kw.value.body.elts]))
+                        else:
+                            tv = self.ev.ev(s, kw.value.body)
+                            pats.append(tv.t)
                 if pats and f.id == 'forall':
                     return VBool(smt.forall(vs, body, patterns=pats))   # (falls back to z3's choice when a pattern holds an ite)
                 return VBool(z3.ForAll(vs, body) if f.id == 'forall' else z3.Exists(vs, body))
